@@ -143,6 +143,14 @@ func (f *Field[T]) IsZero(a *Element[T]) frontend.Variable {
 		}
 		res0 = f.api.IsZero(limbSum)
 	}
+	if len(ca.Limbs) < len(p.Limbs) {
+		// the element has less limbs than the modulus (a short constant or an
+		// element composed of a few bits). The most significant limb of the
+		// modulus is not zero, so the element can not be equal to p and
+		// comparing only its limbs against the low limbs of p would give a
+		// false positive.
+		return res0
+	}
 	// however, for checking if the element is p, we can not use the
 	// optimization as we may have underflows. So we have to check every limb
 	// individually.
